@@ -21,6 +21,8 @@ C31  Loop transformations preserve behaviour where they apply.
      automatically detected variables are filtered against this pragma's explicit
      list only (a variable known from an earlier site must be registered again so
      that its dimensions are merged).
+ R6  names are compared with both operands case-folded (or neither): a one-sided
+     ``.lower()`` never matches an upper-case spelling.
 Not decided: legality analysis (independence), body re-indexing arithmetic.
 """
 import ast
@@ -202,14 +204,42 @@ def run(ctx):
         else:
             ctx.judge('R5', 'auto-detected promotion variables are merged at every site', facts={'filter_names': sorted(names)})
 
+    # ---- R6 name comparisons fold both sides
+    ctx.rule('R6', 'transform_loop.py: a comparison of two symbol names folds the case of both operands or of neither')
+    modl = m.module_by_path(TL)
+
+    def _folded(e):
+        return isinstance(e, ast.Call) and isinstance(e.func, ast.Attribute) and e.func.attr in ('lower', 'upper') and not e.args
+
+    def _is_name(e):
+        return isinstance(e, ast.Attribute) and e.attr in ('name', 'basename')
+    n6 = 0
+    for c in ast.walk(modl.tree):
+        if isinstance(c, ast.Compare) and len(c.ops) == 1 and isinstance(c.ops[0], (ast.Eq, ast.NotEq)):
+            a_, b_ = c.left, c.comparators[0]
+            sides = [(_folded(x) and _is_name(x.func.value), _is_name(x)) for x in (a_, b_)]
+            if any(s_[0] or s_[1] for s_ in sides) and all(s_[0] or s_[1] for s_ in sides):
+                n6 += 1
+                inst = f'{ast.unparse(c)[:70]}'
+                if sides[0][0] != sides[1][0]:
+                    ctx.violation('R6', 'transform_loop:one-sided-case-fold', f'{TL}:{c.lineno}',
+                                  f'`{ast.unparse(c)}` lower-cases one operand only: Fortran names are case-insensitive, so with DO I / DO J (upper '
+                                  f'case in the source) the names never compare equal and the loop variable is not renamed in the fused body',
+                                  instance=inst)
+                else:
+                    ctx.judge('R6', inst)
+    ctx.floor('R6', 'name-to-name comparisons in transform_loop.py', n6, 1)
+
 
 MUTANTS = [
+    Mutant('fusion-rename-one-sided-fold', TL, "                                        if var.name.lower() == loop_variable.name.lower()})",
+           "                                        if var.name.lower() == loop_variable.name})", expect=('R6', 'one-sided-case-fold')),
     Mutant('fission-skips-known-promotions', TL,
            "                promote_vars += [v.name.lower() for v in read_after_write_vars(loops[-1].body, pragma)\n                                 if v.name.lower() not in promote_vars]",
            "                known_vars = set(promote_vars) | set(promotion_vars_dims)\n                promote_vars += [v.name.lower() for v in read_after_write_vars(loops[-1].body, pragma)\n                                 if v.name.lower() not in known_vars]",
            expect=('R5', 'auto-promotion-skipped')),
     Mutant('fusion-renames-level-by-level', TL,
-           "                var_map = {}\n                for loop_variable, fusion_variable in zip(variables, fusion_variables):\n                    if loop_variable != fusion_variable:\n                        var_map.update({var: fusion_variable for var in FindVariables().visit(body)\n                                        if var.name.lower() == loop_variable.name})\n                if var_map:\n                    body = SubstituteExpressions(var_map).visit(body)\n",
+           "                var_map = {}\n                for loop_variable, fusion_variable in zip(variables, fusion_variables):\n                    if loop_variable != fusion_variable:\n                        var_map.update({var: fusion_variable for var in FindVariables().visit(body)\n                                        if var.name.lower() == loop_variable.name.lower()})\n                if var_map:\n                    body = SubstituteExpressions(var_map).visit(body)\n",
            "                for loop_variable, fusion_variable in zip(variables, fusion_variables):\n                    if loop_variable != fusion_variable:\n                        var_map = {var: fusion_variable for var in FindVariables().visit(body)\n                                   if var.name.lower() == loop_variable.name}\n                        body = SubstituteExpressions(var_map).visit(body)\n",
            expect=('R4', 'sequential-renaming')),
     Mutant('unroller-drops-step', TL, "            unroll_range = get_pyrange(LoopRange((start, stop, step)))", "            unroll_range = get_pyrange(LoopRange((start, stop)))",
